@@ -845,6 +845,9 @@ theorem getEnvTerm_spec (s : PS) (hi : Inv s) : Spec Adv s (getEnvTerm s) := by
 theorem jumpAdvance_le (s0 s : PS) (k : Nat) (ht : s.toks = s0.toks) (hk : s0.pos ≤ k + 1) : Le s0 (s.jumpAdvance k) :=
   ⟨by simp [PS.jumpAdvance, PS.advance, ht], by simp only [PS.jumpAdvance, PS.advance]; omega, advance_inv _⟩
 
+theorem jumpTo_le (s0 s : PS) (ht : s.toks = s0.toks) (hb : s0.pos < s0.toks.length) : Le s0 (s.jumpTo s0.pos) :=
+  ⟨by simp [PS.jumpTo, ht], by simp [PS.jumpTo], by intro h; simp only [PS.jumpTo, ht] at h; omega⟩
+
 theorem getSpecEnv_spec (s : PS) (hi : Inv s) : Spec Le s (getSpecEnv s) := by
   unfold getSpecEnv
   rcases expect_cases s .underline hi (by decide) with ⟨he, h1⟩ | he
@@ -854,12 +857,12 @@ theorem getSpecEnv_spec (s : PS) (hi : Inv s) : Spec Le s (getSpecEnv s) := by
       refine Spec.bind (R1 := Le) (R2 := fun _ c => Le s c) (R3 := Le) (getEnvElements_spec false s.advance.advance h2.inv) (fun x s3 h3 => ?_) (fun b c _ h => h)
       rcases expect_cases s3 .underline h3.inv (by decide) with ⟨he4, h4⟩ | he4
       · simp only [he4, if_true]
-        exact jumpAdvance_le s _ _ (by rw [advance_toks, h3.toks_eq]; rfl) (by omega)
+        exact jumpTo_le s _ (by rw [advance_toks, h3.toks_eq]; rfl) h1.inb
       · simp only [he4]
         refine NoFuel.bind (prev_nofuel s3) (fun p => ?_)
         exact ((h1.trans h2).toLe.trans h3)
     · simp only [he2]
-      exact jumpAdvance_le s _ _ rfl (by simp only [advance_pos]; omega)
+      exact jumpTo_le s _ rfl h1.inb
   · simp only [he]
     exact Le.refl s hi
 
